@@ -43,6 +43,12 @@ class Lin:
                     return x[2][0]
                 if self.sum_transparent and nm in SUMS and len(x[2]) >= 1:
                     return x[2][0]
+            if h == "call" and x[3] and x[1][0] == "name" and x[1][1].startswith("genjax.") and self.ev is not None:
+                # keyword arguments of a call to a repo-local function/dataclass that continue the positional prefix are positional
+                # arguments (signature order): f(a, b) and f(x=a, y=b) are one term.  Applied to both sides of every comparison.
+                r = self._canon_kw(x)
+                if r is not None:
+                    return r
             if h == "boolop" and x[1] == "or" and len(x[2]) == 2 and x[2][1] in (("dict", ()), ("tuple", ()), ("const", None)):
                 return x[2][0]
             if h == "ifexp" and x[1][0] == "call" and x[1][1] == ("name", "jax.numpy.shape"):
@@ -66,6 +72,37 @@ class Lin:
             prev = cur
             cur = subst(cur, f)
         return cur
+
+    def _canon_kw(self, x):
+        import ast as _ast
+        if any(k is None for k, _ in x[3]) or any(a[0] == "star" for a in x[2]):
+            return None
+        try:
+            r = self.ev.p.lookup(x[1][1])
+        except Exception:
+            return None
+        if r is None:
+            return None
+        if r[0] in ("func", "method") and isinstance(r[1], _ast.FunctionDef) and not r[1].args.posonlyargs:
+            fields = [a.arg for a in r[1].args.args]
+            if r[0] == "method" and fields and fields[0] in ("self", "cls"):
+                return None
+        elif r[0] == "class":
+            fields = self.ev.p.dataclass_fields(r[1]) or []
+        else:
+            return None
+        kw = dict(x[3])
+        out = list(x[2])
+        rest = list(x[3])
+        for f in fields[len(out):]:
+            if f in kw:
+                out.append(kw[f])
+                rest = [(k, v) for k, v in rest if k != f]
+            else:
+                break
+        if len(out) == len(x[2]):
+            return None
+        return ("call", x[1], tuple(out), tuple(rest))
 
     # -- condition collection -----------------------------------------------
     def conds(self, t, acc=None):
